@@ -131,6 +131,7 @@ class SymRows:
     def __init__(self, lean):
         self.lean = lean
         self.updates = None  # dict col -> expr after the loop ran
+        self.cur = None  # row state while the loop body is executed
 
 
 class RowCount:
@@ -146,6 +147,11 @@ class RowIndex:
 class MapResult:
     def __init__(self, lst: SymList, var: str, elem):
         self.lst, self.var, self.elem = lst, var, elem
+
+
+class FoldResult:
+    def __init__(self, lst: SymList, init, acc_var: str, var: str, body):
+        self.lst, self.init, self.acc_var, self.var, self.body = lst, init, acc_var, var, body
 
 
 class Func:
@@ -257,9 +263,12 @@ class Module:
                 info = pyxprep.parse_pxd(prog.read(pxd))
             except FileNotFoundError:
                 info = {"arrays": {}, "scalars": {}}
+            inline = pyxprep.parse_inline_attrs(prog.read(path))
             for cname, ci in self.classes.items():
-                ci.c_arrays = info["arrays"].get(cname, {})
-                ci.c_scalars = info["scalars"].get(cname, [])
+                ci.c_arrays = dict(info["arrays"].get(cname, {}))
+                ci.c_scalars = list(info["scalars"].get(cname, []))
+                ci.c_arrays.update(inline.get(cname, {}).get("arrays", {}))
+                ci.c_scalars += [a for a in inline.get(cname, {}).get("scalars", []) if a not in ci.c_scalars]
             hdr = os.path.join(os.path.dirname(path), "constants.h")
             try:
                 self.c_consts = pyxprep.parse_constants_h(prog.read(hdr))
@@ -414,7 +423,7 @@ class Exec:
     def __init__(self, prog: Program, module: Module, decisions=(), opaque=None, ctx=None):
         self.prog, self.module = prog, module
         self.decisions = list(decisions)
-        self.events: list = []  # ('branch', cond, bool) | ('guard', den)
+        self.events: list = []  # ('branch', cond, bool) | ('guard', den) | ('sqrt', name, radicand)
         self.nbranch = 0
         self.opaque = opaque or {}
         self.ctx = ctx  # TranslateCtx: sqrt/trig parameter registry shared by all paths
@@ -527,7 +536,12 @@ class Exec:
             raise Unsupported("sqrt of a non-square constant")
         if self.ctx is None:
             raise Unsupported("sqrt outside a translation context")
-        return Num(("v", self.ctx.sqrt_param(a.e)))
+        for ev in self.events:
+            if ev[0] == "sqrt" and ev[2] == a.e:
+                return Num(("v", ev[1]))
+        name = f"r{sum(1 for ev in self.events if ev[0] == 'sqrt') + 1}"
+        self.events.append(("sqrt", name, a.e))
+        return Num(("v", name))
 
     def compare(self, op, a, b, node):
         if isinstance(op, (ast.Is, ast.IsNot)):
@@ -550,6 +564,13 @@ class Exec:
                 r = [x.value for x in a.items] == [x.value for x in b.items]
                 return r if isinstance(op, ast.Eq) else not r
             self.err(node, "comparison of symbolic tuples")
+        if isinstance(op, (ast.In, ast.NotIn)):
+            if isinstance(b, Tup) and _is_str(a) and all(_is_str(x) for x in b.items):
+                r = a in b.items
+                return r if isinstance(op, ast.In) else not r
+            self.err(node, "`in` on values other than constant strings")
+        if _is_str(a) and _is_str(b) and isinstance(op, (ast.Eq, ast.NotEq)):
+            return (a == b) if isinstance(op, ast.Eq) else (a != b)
         a, b = self.num(a, node), self.num(b, node)
         table = {ast.Lt: "<", ast.LtE: "<=", ast.Eq: "==", ast.NotEq: "!=", ast.Gt: ">", ast.GtE: ">="}
         if type(op) not in table:
@@ -608,7 +629,7 @@ class Exec:
         if v is not None:
             return v
         if name in ("float", "abs", "len", "isinstance", "range", "tuple", "list", "iter", "slice", "__c_array_copy__",
-                    "min", "max", "int"):
+                    "min", "max", "int", "zip", "sum", "reversed"):
             return Builtin(name)
         if name in PY_ERRORS or name.endswith("Error"):
             return ("exc", name)
@@ -633,10 +654,26 @@ class Exec:
     def e_BinOp(self, node, fr):
         return self.binop(node.op, self.eval(node.left, fr), self.eval(node.right, fr), node)
 
+    PURE_CALLS = {"fabs", "abs", "float"}
+
+    def _may_have_events(self, n) -> bool:
+        """can evaluating this operand raise, branch or take a root?  (syntactic, conservative)"""
+        for x in ast.walk(n):
+            if isinstance(x, (ast.Div, ast.Pow, ast.IfExp, ast.Subscript)):
+                return True
+            if isinstance(x, ast.Call) and not (isinstance(x.func, ast.Name) and x.func.id in self.PURE_CALLS):
+                return True
+        return False
+
     def e_BoolOp(self, node, fr):
         is_and = isinstance(node.op, ast.And)
         acc = None
         for i, vnode in enumerate(node.values):
+            if acc is not None and self._may_have_events(vnode):
+                # the operand may raise / branch: Python evaluates it only if the operands so far do not decide
+                if self.decide(acc, vnode) != is_and:
+                    return BoolV(("F",)) if is_and else BoolV(("T",))
+                acc = None
             n_events = len(self.events)
             v = self.eval(vnode, fr)
             if i > 0 and len(self.events) != n_events and acc is not None:
@@ -645,7 +682,6 @@ class Exec:
                 if bool(v) != is_and:  # False in `and` / True in `or` decides
                     if acc is None:
                         return v
-                    # earlier symbolic operands stay relevant only through their truth value
                     return BoolV(("F",)) if is_and else BoolV(("T",))
                 continue
             if not isinstance(v, BoolV):
@@ -673,14 +709,6 @@ class Exec:
 
     def e_IfExp(self, node, fr):
         c = self.eval(node.test, fr)
-        if isinstance(c, BoolV) and c.e not in (("T",), ("F",)):
-            known = [ev for ev in self.events if ev[0] == "branch" and ev[1] in (c.e, ("not", c.e))]
-            if not known:
-                n_events = len(self.events)
-                a, b = self.eval(node.body, fr), self.eval(node.orelse, fr)
-                if isinstance(a, Num) and isinstance(b, Num) and len(self.events) == n_events:
-                    return Num(("ite", c.e, a.e, b.e))
-                self.err(node, "conditional expression with non-numeric or guarded branches")
         return self.eval(node.body if self.decide(c, node) else node.orelse, fr)
 
     def e_Tuple(self, node, fr):
@@ -715,8 +743,10 @@ class Exec:
                 return Bound(m, base)
             if isinstance(m, tuple) and m[0] == "classattr":
                 return self.class_value(base.cls, attr, m[1])
-            self.err(node, f"attribute {attr!r} of {base.cls.name} object is not set on this path")
+            raise _Raise("AttributeError")
         if isinstance(base, ClassInfo):
+            if attr == "__name__":
+                return ("str", base.name)
             m = base.lookup(attr)
             if isinstance(m, Func):
                 if m.kind == "class":
@@ -742,6 +772,10 @@ class Exec:
             self.err(node, f"array attribute {attr!r} (numpy) has no arithmetic model")
         if isinstance(base, SymRows) and attr == "shape":
             return Tup([RowCount(base), ("opaque", "ncols")])
+        if isinstance(base, Tup) and attr == "append":
+            return Builtin(("append", base))
+        if isinstance(base, (Num, Tup, BoolV, bool)) or base is None:
+            raise _Raise("AttributeError")
         self.err(node, f"attribute {attr!r} of {type(base).__name__}")
 
     def class_value(self, cls: ClassInfo, attr, vnode):
@@ -794,7 +828,7 @@ class Exec:
         r = self.eval(sl.elts[0], fr)
         if not (isinstance(r, RowIndex) and r.rows is rows):
             self.err(node, "2-D array access outside the row loop")
-        if not hasattr(rows, "cur") or rows.cur is None:
+        if rows.cur is None:
             self.err(node, "2-D array access outside the row loop")
         return r, self.index_of(self.eval(sl.elts[1], fr), node)
 
@@ -814,7 +848,32 @@ class Exec:
         return self.call(f, args, kwargs, node)
 
     def e_GeneratorExp(self, node, fr):
-        self.err(node, "generator expression")
+        """comprehension over CONCRETE iterables (tuples, arrays, objects with __iter__): evaluated eagerly"""
+        out = []
+
+        def rec(i):
+            if i == len(node.generators):
+                out.append(self.eval(node.elt, fr))
+                return
+            gen = node.generators[i]
+            if gen.is_async:
+                self.err(node, "async comprehension")
+            for v in self.iterate(self.eval(gen.iter, fr), node):
+                self.assign(gen.target, v, fr)
+                if all(self.decide(self.eval(c, fr), node) for c in gen.ifs):
+                    rec(i + 1)
+
+        saved = dict(fr.locals)
+        rec(0)
+        for n in ast.walk(node):
+            if isinstance(n, ast.Name) and isinstance(n.ctx, ast.Store):
+                if n.id in saved:
+                    fr.locals[n.id] = saved[n.id]
+                else:
+                    fr.locals.pop(n.id, None)
+        return Tup(out)
+
+    e_ListComp = e_GeneratorExp
 
     # ------------------------------------------------------------------ calls
     def call(self, f, args, kwargs, node):
@@ -933,6 +992,19 @@ class Exec:
     def call_builtin(self, name, args, kwargs, node):
         if isinstance(name, tuple) and name[0] == "arrcopy":
             return Arr(name[1].cells)
+        if isinstance(name, tuple) and name[0] == "append":
+            name[1].items.append(args[0])  # list.append: in place (the list object keeps its identity)
+            return None
+        if name == "zip":
+            cols = [self.iterate(a, node) for a in args]
+            return Tup([Tup(list(t)) for t in zip(*cols)])
+        if name == "reversed":
+            return Tup(list(reversed(self.iterate(args[0], node))))
+        if name == "sum":
+            acc = Num(ZERO) if len(args) < 2 else args[1]
+            for v in self.iterate(args[0], node):
+                acc = self.binop(ast.Add(), acc, v, node)
+            return acc
         if name == "float":
             return self.num(args[0], node)
         if name in ("abs", "math.fabs"):
@@ -1056,6 +1128,25 @@ class Exec:
             return
         self.err(st, "assert on a symbolic condition")
 
+    def s_Try(self, st, fr):
+        if st.finalbody or st.orelse:
+            self.err(st, "try with else/finally")
+        try:
+            self.block(st.body, fr)
+        except _Raise as r:
+            for h in st.handlers:
+                names = []
+                if h.type is None:
+                    self.err(st, "bare except")
+                for t in (h.type.elts if isinstance(h.type, ast.Tuple) else [h.type]):
+                    names.append(ast.unparse(t).split(".")[-1])
+                if h.name is not None:
+                    self.err(st, "except ... as name")
+                if r.name in names:
+                    self.block(h.body, fr)
+                    return
+            raise
+
     def s_If(self, st, fr):
         c = self.eval(st.test, fr)
         self.block(st.body if self.decide(c, st) else st.orelse, fr)
@@ -1142,7 +1233,9 @@ class Exec:
             self.err(st, "for-else")
         it = self.eval(st.iter, fr)
         if isinstance(it, SymList):
-            return self.map_loop(st, fr, it)
+            if isinstance(fr.yields, list):
+                return self.map_loop(st, fr, it)
+            return self.fold_loop(st, fr, it)
         if isinstance(it, tuple) and it and it[0] == "rowrange":
             return self.row_loop(st, fr, it[1])
         for v in self.iterate(it, st):
@@ -1179,6 +1272,42 @@ class Exec:
             fr.locals.pop(k, None)
         fr.yields = MapResult(lst, var, elem)
 
+    def fold_loop(self, st, fr, lst: SymList):
+        """acc = init; for v in <list parameter>: acc = f(acc, v)   ==>   List.foldl"""
+        if not isinstance(st.target, ast.Name):
+            self.err(st, "loop target")
+        assigned = self._assigned_names(st.body)
+        mutated = set()
+        for n in ast.walk(ast.Module(body=list(st.body), type_ignores=[])):
+            if isinstance(n, (ast.Attribute, ast.Subscript)) and isinstance(n.ctx, ast.Store):
+                b = n.value
+                while isinstance(b, (ast.Attribute, ast.Subscript)):
+                    b = b.value
+                if isinstance(b, ast.Name):
+                    mutated.add(b.id)
+        carried = [k for k in assigned | mutated if k in fr.locals and not isinstance(fr.locals[k], (Func, ClassInfo, Builtin, ModuleV))]
+        if len(carried) != 1:
+            self.err(st, f"fold loop needs exactly one loop-carried variable, found {sorted(carried)}")
+        acc = carried[0]
+        init = fr.locals[acc]
+        typ = {"Matrix44": "m44", "Vec3": "v3", "Vec2": "v2"}.get(init.cls.name) if isinstance(init, Obj) else "rat" if isinstance(init, Num) else None
+        if typ is None:
+            self.err(st, "type of the loop-carried variable")
+        for k in assigned - {acc}:
+            fr.locals.pop(k, None)
+        n_events = len(self.events)
+        fr.locals[acc] = self.ctx.symbolic(typ, "acc", self, st)
+        fr.locals[st.target.id] = self.ctx.symbolic(lst.elem_type, "e", self, st)
+        self.block(st.body, fr)
+        if len(self.events) != n_events:
+            self.err(st, "branch or division guard inside a fold loop")
+        body = fr.locals[acc]
+        if self.ctx.type_of_value(body) != self.ctx.type_of_value(init):
+            self.err(st, "loop-carried variable changes its type")
+        for k in assigned | {st.target.id}:
+            fr.locals.pop(k, None)
+        fr.locals[acc] = FoldResult(lst, init, "acc", "e", body)
+
     def row_loop(self, st, fr, rows: SymRows):
         """for i in range(n_rows): reads/writes of array[i, k] only   ==>   row-wise List.map"""
         if rows.updates is not None:
@@ -1199,6 +1328,10 @@ class Exec:
         rows.cur = None
         for k in assigned:
             fr.locals.pop(k, None)
+
+
+def _is_str(v) -> bool:
+    return isinstance(v, tuple) and len(v) == 2 and v[0] == "str"
 
 
 def _load(t):
@@ -1351,6 +1484,20 @@ class LeanDef:
         ps = " ".join(f"({n} : {t})" for n, t in self.params)
         return f"def {self.name} {ps} : {self.ret_type}".replace("  ", " ")
 
+    def sqrt_wrapper(self, suffix="S") -> str:
+        """`<name>S (sqrt : Rat → Rat) params` : the definition with every root parameter r_k computed by `sqrt`
+        from its radicand (used by drivers with an approximating sqrt, never by theorems)"""
+        n = len(self.sqrt_params)
+        base = self.params[: len(self.params) - n]
+        ps = " ".join(f"({a} : {t})" for a, t in base)
+        names = " ".join(a for a, _ in base)
+        lets, rs = [], []
+        for k in range(1, n + 1):
+            lets.append(f"  let r{k} := sqrt ({self.name}_rad{k} {names}{''.join(' ' + r for r in rs)})")
+            rs.append(f"r{k}")
+        return (f"def {self.name}{suffix} (sqrt : Rat → Rat) {ps} : {self.ret_type} :=\n" + "\n".join(lets)
+                + f"\n  {self.name} {names}{''.join(' ' + r for r in rs)}\n")
+
     @property
     def text(self) -> str:
         doc = f"/-- translated from {self.source} -/\n" if self.source else ""
@@ -1366,14 +1513,6 @@ class TranslateCtx:
         self.trigs: list = []  # [(kind, angle, leanname)]
         self.params: list = []  # [(leanname, leantype)]
         self.obj_lean: dict = {}  # id(obj) -> (leanname, snapshot) for objects that are parameters
-
-    def sqrt_param(self, e) -> str:
-        for n, r in self.sqrts:
-            if r == e:
-                return n
-        n = f"r{len(self.sqrts) + 1}"
-        self.sqrts.append((n, e))
-        return n
 
     def trig_param(self, kind, angle) -> str:
         n = {"cos": "c_", "sin": "s_", "tan": "t_"}[kind] + angle
@@ -1421,6 +1560,8 @@ class TranslateCtx:
             return Tup([Num(("v", f"{lean}.x")), Num(("v", f"{lean}.y")), Num(("v", f"{lean}.z"))])
         if isinstance(typ, tuple) and typ[0] == "list":
             return SymList(lean, typ[1])
+        if isinstance(typ, tuple) and typ[0] == "tuple":
+            return Tup([self.symbolic(t, f"{lean}{i}", ex, node) for i, t in enumerate(typ[1])])
         if isinstance(typ, tuple) and typ[0] == "rows":
             return SymRows(lean)
         if isinstance(typ, tuple) and typ[0] == "rowcount":
@@ -1468,6 +1609,8 @@ class TranslateCtx:
             raise Unsupported("array result of length != 16")
         if isinstance(v, MapResult):
             return f"({v.lst.lean}.map fun {v.var} => {self.lean_of_value(v.elem)})"
+        if isinstance(v, FoldResult):
+            return f"({v.lst.lean}.foldl (fun {v.acc_var} {v.var} => {self.lean_of_value(v.body)}) {self.lean_of_value(v.init)})"
         if isinstance(v, SymRows):
             if v.updates is None:
                 return v.lean
@@ -1498,6 +1641,8 @@ class TranslateCtx:
             return "M44"
         if isinstance(v, MapResult):
             return f"List {self.type_of_value(v.elem)}"
+        if isinstance(v, FoldResult):
+            return self.type_of_value(v.body)
         if isinstance(v, SymRows):
             return "List (List Rat)"
         if v is None:
@@ -1533,13 +1678,26 @@ def find_function(module: Module, qualname: str) -> Func:
     return f
 
 
-def translate(prog: Program, path: str, qualname: str, params: list, *, lean_name: str | None = None,
-              result: str | None = None, opaque: dict | None = None, max_paths: int = 64) -> LeanDef:
+class _ExprFunc:
+    """a Python expression evaluated in the context of a module with the parameters bound as local names
+    (`translate(..., expr="Bezier4P((p0, p1, p2, p3)).point(t)")`)"""
+
+    def __init__(self, module: Module, expr: str):
+        self.module, self.expr = module, expr
+        self.node = ast.parse(expr, mode="eval").body
+        self.kind, self.cls = "expr", None
+        self.qualname = f"<{expr}>"
+
+
+def translate(prog: Program, path: str, qualname: str | None, params: list, *, lean_name: str | None = None,
+              result: str | None = None, opaque: dict | None = None, max_paths: int = 64,
+              expr: str | None = None) -> LeanDef:
     """Translate one function/method.
 
     params: [(python_parameter_name, type)] in Lean parameter order; every Python parameter without a default
       must be listed.  type is one of "rat" "bool" "angle" "v3" "v2" "m44" "arr16" "t3" ("list", elem)
-      ("rows",) ("rowcount", <rows param>) ("obj", Class, {attr: type}) ("const", python value).
+      ("rows",) ("rowcount", <rows param>) ("obj", Class, {attr: type}) ("const", python value)
+      ("alias", <other param>) = the very same object as another parameter (aliasing, e.g. `m *= m`).
       A ("const", v) parameter is bound to the Python value v (None/True/False/int/float) and does not appear
       in the Lean signature.  An optional third element renames the Lean parameter.
     result: Python expression evaluated in the final frame on paths that return None (e.g. "self" for methods
@@ -1547,21 +1705,29 @@ def translate(prog: Program, path: str, qualname: str, params: list, *, lean_nam
     opaque: {python qualname: lean function name} calls kept as calls (numeric result) instead of inlined.
     """
     module = prog.module(path)
-    f = find_function(module, qualname)
+    f = _ExprFunc(module, expr) if expr is not None else find_function(module, qualname)
     ctx = TranslateCtx(prog, module)
     lean_params = []
     for p in params:
         pn, typ = p[0], p[1]
         ln = p[2] if len(p) > 2 else pn
-        if isinstance(typ, tuple) and typ[0] in ("const", "rowcount"):
+        if isinstance(typ, tuple) and typ[0] in ("const", "rowcount", "alias"):
             continue
         if typ == "angle":
             continue  # trig parameters are appended in order of use below
         if isinstance(typ, tuple) and typ[0] == "obj":
-            for a, t in typ[2].items():
-                lean_params.append((a if ln == "self" else f"{ln}_{a}", ctx.lean_type(t)))
+            def _flat(prefix, objtyp):  # nested object parameters (C12: OCSTransform holding two OCS objects)
+                for a, t in objtyp[2].items():
+                    n = a if prefix == "self" else f"{prefix}_{a}"
+                    if isinstance(t, tuple) and t[0] == "obj":
+                        _flat(n, t)
+                    else:
+                        lean_params.append((n, ctx.lean_type(t)))
+            _flat(ln, typ)
         elif isinstance(typ, tuple) and typ[0] == "list":
             lean_params.append((ln, f"List {ctx.lean_type(typ[1])}"))
+        elif isinstance(typ, tuple) and typ[0] == "tuple":
+            lean_params += [(f"{ln}{i}", ctx.lean_type(t)) for i, t in enumerate(typ[1])]
         elif isinstance(typ, tuple) and typ[0] == "rows":
             lean_params.append((ln, "List (List Rat)"))
         else:
@@ -1575,7 +1741,7 @@ def translate(prog: Program, path: str, qualname: str, params: list, *, lean_nam
         leaf = _run_once(ex, f, params, ctx, result_node)
         runs.append((list(ex.events), leaf))
         if len(runs) > max_paths:
-            raise Unsupported(f"{qualname}: more than {max_paths} paths")
+            raise Unsupported(f"{qualname or expr}: more than {max_paths} paths")
         d = ex.decisions
         while d and d[-1] is False:
             d.pop()
@@ -1586,31 +1752,45 @@ def translate(prog: Program, path: str, qualname: str, params: list, *, lean_nam
 
     # result type
     types = {ctx.type_of_value(l[1]) for _, l in runs if l[0] == "ret"}
+    rets = [l[1] for _, l in runs if l[0] == "ret"]
+    if len(types) == 2 and "Unit" in types:  # Optional[T]: `return None` on some paths
+        inner = (types - {"Unit"}).pop()
+        ctx.wrap = ("option", inner)
+        types = {f"Option {inner}" if " " not in inner or inner.startswith("(") else f"Option ({inner})"}
+    elif len(types) > 1 and all(isinstance(v, Tup) for v in rets):
+        elem = {ctx.type_of_value(x) for v in rets for x in v.items}
+        if len(elem) == 1:  # tuples of different lengths with one element type: a list
+            ctx.wrap = ("list", elem.copy().pop())
+            types = {f"List {elem.pop()}"}
     if len(types) != 1:
-        raise Unsupported(f"{qualname}: result types differ between paths or no returning path: {types}")
+        raise Unsupported(f"{qualname or expr}: result types differ between paths or no returning path: {types}")
     rtype = types.pop()
     raises = any(l[0] == "raise" for _, l in runs) or any(ev[0] == "guard" for evs, _ in runs for ev in evs)
     body = _emit_tree(runs, 0, ctx, raises, "  ")
     # trig params in order of first use, sqrt params
     sig = list(lean_params)
-    insert_at = {}
+    angle_order = [(p[2] if len(p) > 2 else p[0]) for p in params if p[1] == "angle"]
+    ctx.trigs.sort(key=lambda t: (angle_order.index(t[1]), ("cos", "sin", "tan").index(t[0])))
     for kind, angle, ln in ctx.trigs:
         sig.append((ln, "Rat"))
     aux = []
     sqrt_info = []
-    name = lean_name or qualname.replace(".", "_")
-    for i, (rn, rad) in enumerate(ctx.sqrts):
+    name = lean_name or (qualname or "expr").replace(".", "_")
+    nsqrt = max([sum(1 for ev in evs if ev[0] == "sqrt") for evs, _ in runs] + [0])
+    for k in range(1, nsqrt + 1):
         ps = " ".join(f"({n} : {t})" for n, t in sig)
-        rtxt = lean_num(rad)
-        aux.append(f"/-- radicand of the square root that `{name}` takes as parameter {rn} -/\n"
-                   f"def {name}_rad{i + 1} {ps} : Rat :=\n  {rtxt}")
-        sqrt_info.append((rn, rtxt))
-        sig.append((rn, "Rat"))
+        rtxt = _emit_rad_tree(runs, 0, f"r{k}", "  ")
+        aux.append(f"/-- radicand of the k-th square root (k = {k}) evaluated by `{name}`, which takes the root as parameter r{k};\n"
+                   f"    0 on paths that evaluate fewer square roots -/\n"
+                   f"def {name}_rad{k} {ps} : Rat :=\n{rtxt}")
+        sqrt_info.append((f"r{k}", rtxt))
+        sig.append((f"r{k}", "Rat"))
     ret_type = f"Except PyErr {rtype}" if raises else rtype
     if raises and " " in rtype and not rtype.startswith("("):
         ret_type = f"Except PyErr ({rtype})"
+    ctx.wrap = None
     return LeanDef(name=name, params=sig, ret_type=ret_type, body=body, aux=aux, sqrt_params=sqrt_info,
-                   trig_params=list(ctx.trigs), raises=raises, source=f"{path}: {qualname}")
+                   trig_params=list(ctx.trigs), raises=raises, source=f"{path}: {qualname or expr}")
 
 
 def _run_once(ex: Exec, f: Func, params, ctx: TranslateCtx, result_node):
@@ -1625,23 +1805,41 @@ def _run_once(ex: Exec, f: Func, params, ctx: TranslateCtx, result_node):
                 args[pn] = Num(const(Fraction(v))) if isinstance(v, (int, float)) and not isinstance(v, bool) else v
             elif isinstance(typ, tuple) and typ[0] == "rowcount":
                 args[pn] = RowCount(rows_by_name[typ[1]])
+            elif isinstance(typ, tuple) and typ[0] == "alias":
+                args[pn] = args[typ[1]]  # the SAME object as another parameter (m *= m)
             else:
                 v = ctx.symbolic(typ, ln, ex)
                 if isinstance(v, SymRows):
                     rows_by_name[pn] = v
                 args[pn] = v
+        if isinstance(f, _ExprFunc):
+            ex.depth = 1
+            return ("ret", ex.eval(f.node, Frame(f.module, None, dict(args))))
         a = f.node.args
         names = [x.arg for x in a.posonlyargs + a.args]
         pos = []
         kw = {}
-        for n in names:
+        star_list = None
+        for n in names[1:] if f.kind == "class" else names:
             if n in args:
                 pos.append(args.pop(n))
             else:
                 break
+        if a.vararg and a.vararg.arg in args:
+            v = args.pop(a.vararg.arg)
+            if isinstance(v, SymList):
+                star_list = v
+            else:
+                pos += ex.iterate(v, f.node)
         kw = dict(args)
+        if f.kind == "class":
+            pos = [f.cls] + pos
+        elif f.kind == "method" and names and names[0] not in [p[0] for p in params]:
+            raise Unsupported(f"{f.qualname}: receiver parameter {names[0]!r} missing from params")
         ex.depth = 0
         fr = Frame(f.module, f, ex.bind(f, pos, kw, f.node))
+        if star_list is not None:
+            fr.locals[a.vararg.arg] = star_list  # `*args` given as a list parameter: only iteration is supported
         is_gen = any(isinstance(n, (ast.Yield, ast.YieldFrom)) for n in ast.walk(f.node))
         if is_gen:
             fr.yields = []
@@ -1670,9 +1868,21 @@ def _emit_tree(runs, depth, ctx: TranslateCtx, raises: bool, ind: str) -> str:
             raise Unsupported("internal: ambiguous paths")
         if leaf[0] == "raise":
             return f"{ind}.error PyErr.{PY_ERRORS[leaf[1]]}"
-        txt = ctx.lean_of_value(leaf[1])
+        facts = {ev[1]: ev[2] for ev in evs if ev[0] == "branch"}
+        val = _apply_facts(leaf[1], facts)
+        wrap = getattr(ctx, "wrap", None)
+        if wrap and wrap[0] == "option":
+            txt = "none" if val is None else f"(some {ctx.lean_of_value(val)})"
+        elif wrap and wrap[0] == "list":
+            txt = "[" + ", ".join(ctx.lean_of_value(x) for x in val.items) + "]"
+        else:
+            txt = ctx.lean_of_value(val)
         return f"{ind}.ok {txt}" if raises else f"{ind}{txt}"
     ev = evs[depth]
+    if ev[0] == "sqrt":
+        if any(len(r[0]) <= depth or r[0][depth] != ev for r in runs):
+            raise Unsupported("internal: sqrt mismatch between paths")
+        return _emit_tree(runs, depth + 1, ctx, raises, ind)
     if ev[0] == "guard":
         if any(r[0][depth] != ev for r in runs):
             raise Unsupported("internal: guard mismatch between paths")
@@ -1686,8 +1896,59 @@ def _emit_tree(runs, depth, ctx: TranslateCtx, raises: bool, ind: str) -> str:
             f"{ind}else\n{_emit_tree(e, depth + 1, ctx, raises, ind + '  ')}")
 
 
+def simplify_bool(e, facts: dict):
+    """replace sub-conditions whose truth value was decided on this path by that value"""
+    if e in facts:
+        return ("T",) if facts[e] else ("F",)
+    k = e[0]
+    if k == "not":
+        x = simplify_bool(e[1], facts)
+        return ("F",) if x == ("T",) else ("T",) if x == ("F",) else ("not", x)
+    if k in ("and", "or"):
+        a, b = simplify_bool(e[1], facts), simplify_bool(e[2], facts)
+        unit, zero = (("T",), ("F",)) if k == "and" else (("F",), ("T",))
+        if a == zero or b == zero:
+            return zero
+        if a == unit:
+            return b
+        if b == unit:
+            return a
+        return (k, a, b)
+    return e
+
+
+def _apply_facts(v, facts: dict):
+    if not facts:
+        return v
+    if isinstance(v, BoolV):
+        return BoolV(simplify_bool(v.e, facts))
+    if isinstance(v, Tup):
+        return Tup([_apply_facts(x, facts) for x in v.items])
+    return v
+
+
+def _emit_rad_tree(runs, depth, rname, ind) -> str:
+    evs = runs[0][0]
+    if depth >= len(evs):
+        if len(runs) != 1:
+            raise Unsupported("internal: ambiguous paths")
+        return f"{ind}0"
+    ev = evs[depth]
+    if ev[0] == "sqrt" and ev[1] == rname:
+        return f"{ind}{lean_num(ev[2])}"
+    if ev[0] in ("sqrt", "guard"):
+        return _emit_rad_tree(runs, depth + 1, rname, ind)
+    t = [r for r in runs if r[0][depth][2] is True]
+    e = [r for r in runs if r[0][depth][2] is False]
+    a, b = _emit_rad_tree(t, depth + 1, rname, ind + "  "), _emit_rad_tree(e, depth + 1, rname, ind + "  ")
+    if a.strip() == b.strip():
+        return f"{ind}{a.strip()}"
+    return f"{ind}if {lean_bool_prop(ev[1])} then\n{a}\n{ind}else\n{b}"
+
+
 def lean_file(namespace: str, defs: list, imports=("EzdxfVerif.Model.Rat3",), opens=("EzdxfVerif.Rat3",), extra: str = "") -> str:
     out = "".join(f"import {i}\n" for i in imports)
+    out += "\nset_option linter.unusedVariables false\n"
     out += f"\nnamespace {namespace}\n" + "".join(f"open {o}\n" for o in opens) + "\n"
     for d in defs:
         out += (d.text if isinstance(d, LeanDef) else d) + "\n"
